@@ -1041,7 +1041,8 @@ func parseLinkDestination(r *inlineByteReader) linkDestination {
 		start := r.pos
 		for r.next() {
 			switch r.current() {
-			case '\r', '\n':
+			case '\r', '\n', '<':
+				// No line endings or unescaped '<' inside the angle brackets.
 				return linkDestination{span: NullSpan(), text: NullSpan()}
 			case '\\':
 				if !r.next() {
